@@ -239,6 +239,8 @@ def _roles(world):
 def execute(scn):
     if scn.get("mode") == "placement":
         return _execute_placement(scn)
+    # the sync rendering is always derived from the async one (a stored or shrunk scenario cannot hold an inconsistent pair)
+    scn = dict(scn, world=_strip_async(scn["aworld"]), tickets=[_strip_pauses(t) for t in scn["atickets"]])
     try:
         srun = _run_sync(scn["world"], scn["tickets"])
     except core.Abort:
